@@ -100,6 +100,7 @@ class Ctx:
         self.atom_checks = []
         self.known = {}
         self.control = set()
+        self.realnames = set()
         self.datavars = set()
         self.nfresh = 0
         self.solver = z3.Solver()
@@ -587,6 +588,7 @@ def _mkvar(name, control):
     if CTX.mode == "concrete":
         return float(CTX.values.get(name, 0.0))
     (CTX.control if control else CTX.datavars).add(name)
+    CTX.realnames.add(name)
     return SymReal(z3.Real(name), None, _name_fp(name), vname=name)
 
 
@@ -1032,7 +1034,7 @@ def _check(constraints, timeout_ms):
 def model_values(solver):
     m = solver.model()
     out = {}
-    for name in sorted(CTX.control | CTX.datavars):
+    for name in sorted(CTX.realnames):
         if name in out:
             continue
         try:
@@ -1183,15 +1185,21 @@ def prove_equal(label, a, b, info=None):
         ds = d
     # need the path condition / atom definitions (or the terms really differ)
     nz = [z3.simplify(x) for x in _den_nonzero(a, b)]
+    if not same_fp:
+        # the fingerprints predict a real difference: look for a witness by fixing the free variables first
+        # (z3's model search through root-defining constraints is slow on the sat side, DESIGN 1.1)
+        w = _search_witness(ds, nz, tries=24)
+        if w is not None:
+            CTX.stats["sat"] += 0
+            raise PathViolation(_viol(label, w, info, a=a, b=b))
     r, s = _check([ds != 0] + nz + CTX.pc + CTX.defs, tmo)
     if r == "unsat":
         CTX.stats["stage3"] += 1
         return True
     if r == "sat":
         raise PathViolation(_viol(label, s, info, a=a, b=b))
-    # unknown: try to find a witness by evaluation when the fingerprints differ
     if not same_fp:
-        w = _search_witness(ds, nz)
+        w = _search_witness(ds, nz, tries=60)
         if w is not None:
             raise PathViolation(_viol(label, w, info, a=a, b=b))
     raise PathViolation(_viol(label, None, info, unknown=True))
@@ -1208,17 +1216,25 @@ def _den_nonzero(*xs):
 
 
 def _search_witness(dnz, nz, tries=40):
-    """z3 said unknown: look for a model by fixing the free (non-atom) variables at small rationals."""
+    """Look for a model by fixing the free (non-atom) real variables at small rationals; z3 then only solves the atoms."""
     rng = random.Random(SEED + 17)
     cons = [dnz != 0] + nz + CTX.pc + CTX.defs
-    free = set()
+    free = {}
     for c in cons:
         for v in _vars(c):
-            free.add(v)
-    base = [v for v in free if "!" not in str(v) and v.sort() == z3.RealSort()]
-    for _ in range(tries):
-        fix = [v == z3.RealVal(f"{rng.randint(-8, 8)}/{rng.choice([1, 2, 4])}") for v in base]
-        r, s = _check(cons + fix, 3000)
+            free[str(v)] = v
+    base = [v for n, v in sorted(free.items()) if "!" not in n and v.sort() == z3.RealSort()]
+    ctrl = [v for v in base if str(v) in CTX.control]
+    data = [v for v in base if str(v) not in CTX.control]
+    for t in range(tries):
+        fix = []
+        for v in ctrl:
+            fix.append(v == z3.RealVal(f"{rng.randint(0, 7)}/8") if t % 3 else v == z3.RealVal(f"{rng.randint(1, 16)}/8"))
+        for v in data:
+            fix.append(v == z3.RealVal(f"{rng.randint(-8, 8)}/{rng.choice([1, 2, 4])}"))
+        if t % 2 == 1:
+            fix = fix[len(ctrl):]  # let the solver choose the hyperparameters
+        r, s = _check(cons + fix, 2500)
         if r == "sat":
             return s
     return None
@@ -1250,7 +1266,7 @@ def _nicer_model(solver, a, b):
     """Ask for a witness that survives float replay: values on a moderate scale and a visible gap |a-b| >= 1/32."""
     cons = list(solver.assertions())
     extra = []
-    for name in sorted(CTX.control | CTX.datavars):
+    for name in sorted(CTX.realnames):
         if "!" in name:
             continue
         v = z3.Real(name)
